@@ -419,11 +419,21 @@ func refDecode(cti string, body []byte, base string) (qs []rdf.Quad, err error) 
 			out.err = err
 			return
 		}
-		d := h.GetQuadsDecoder()
-		for d.Next() {
-			out.qs = append(out.qs, d.Quad())
+		// the harness' own adapter (not DecoderHandle.GetQuadsDecoder, which is under test)
+		switch d := h.Decoder.(type) {
+		case encoding.QuadsDecoder:
+			for d.Next() {
+				out.qs = append(out.qs, d.Quad())
+			}
+			out.err = d.Err()
+		case encoding.TriplesDecoder:
+			for d.Next() {
+				out.qs = append(out.qs, rdf.Quad{Triple: d.Triple()})
+			}
+			out.err = d.Err()
+		default:
+			out.err = fmt.Errorf("decoder of unexpected type %T", h.Decoder)
 		}
-		out.err = d.Err()
 	}()
 	select {
 	case r := <-ch:
@@ -1057,6 +1067,14 @@ func (g *gen) evaluate(c *e2eCase) verdict {
 			// the file carries the registered extension of its format; a magic-byte resolver claimed it first
 			return g.knownOrViolation("magic-overrides-extension", symptom+"; "+what+" although the file extension names the right format (magic bytes rank above the extension) — "+c.describe(), "magic-overrides-extension")
 		case "sniff", "stdin-sniff":
+			if us := unstableIRIs(base, ref); len(us) > 0 && (decCti == "org.w3.trig" || decCti == "org.w3.turtle") && (trueCti == "org.w3.n-triples" || trueCti == "org.w3.n-quads" || trueCti == "org.w3.turtle") {
+				// the TriG fallback reads the same statements but resolves every IRI against the base (C12's D14 family)
+				for _, k := range d14Keys(us[0]) {
+					if f, ok := g.lookupKnown(k); ok {
+						return verdict{"known", f.Key, symptom + "; " + what + " (fallback), whose decoder re-prints " + us[0] + " differently — " + c.describe(), "codec:" + k}
+					}
+				}
+			}
 			if !silent {
 				return verdict{class: "undetectable-fails-loudly"} // nothing to go by; the command says so
 			}
@@ -1091,7 +1109,10 @@ func (g *gen) evaluate(c *e2eCase) verdict {
 	}
 	fail := func(symptom string, silent bool) verdict {
 		if decCti != trueCti {
-			return misdetected(symptom, silent)
+			// harmless when the other decoder reads the same dataset (N-Triples or Turtle read as TriG)
+			if other, err := refDecode(decCti, c.src.body, base); err != nil || !vh.Isomorphic(other, ref) {
+				return misdetected(symptom, silent)
+			}
 		}
 		return rootCause(symptom)
 	}
